@@ -451,6 +451,14 @@ def class_relation(orig: BaseException, loaded: Any, mode: str) -> Optional[str]
             return None
     # stand-in
     if type(loaded) is cls:
+        if mode != "pickle" and importable(cls) and reconstructible(cls, args) and not any(isinstance(a, BaseException) for a in args):
+            # same class rebuilt from the stored arguments: every argument is still there, in its place - the representable
+            # ones equal, the others as text
+            if len(loaded.args) != len(args):
+                return f"arguments lost: {len(args)} sent ({_safe(args)}), {len(loaded.args)} loaded ({_safe(loaded.args)})"
+            for x, y in zip(loaded.args, args):
+                if json_stable(y) and not (strict_eq(x, y) or x == y):
+                    return f"args changed: {_safe(args)} -> {_safe(loaded.args)}"
         return None
     if type(loaded) in cls.__mro__ and type(loaded) not in (Exception, BaseException, object):
         return None
